@@ -1,10 +1,10 @@
 //! Suite `syn` — parser and printers (C05, C06, parser part of C04) on the real code.
-//!   syn.parse  <src>              parse(src)
-//!   syn.den    <src> <expected…>  parse(src); the expected denotation (`A <AST>` or `X`) was written by
+//!   c05.parse  <src>              parse(src)
+//!   c05.den    <src> <expected…>  parse(src); the expected denotation (`A <AST>` or `X`) was written by
 //!                                 the sentence generator of the Lean side and is judged by the driver
-//!   syn.rej    <src>              parse(src) of a sentence with one out-of-range field (must be an error)
-//!   syn.print  <src>              e = parse(src): e.to_string(), parse(e.to_string())
-//!   syn.printn <src>              the same for e = parse(src).normalize()
+//!   c05.rej    <src>              parse(src) of a sentence with one out-of-range field (must be an error)
+//!   c06.print  <src>              e = parse(src): e.to_string(), parse(e.to_string())
+//!   c06.printn <src>              the same for e = parse(src).normalize()
 //! `<src>` is the percent-encoded source string.
 //! Output of parse/den/rej: `A <AST>` | `err <class>` | `panic:<file>:<line>`.
 //! Output of print/printn:  `<AST of e> | <enc(printed)> | <A <AST of the reparse> | err <class> | panic:…>`
@@ -50,13 +50,13 @@ pub fn exec(op: &str, a: &[&str]) -> Option<String> {
     }
     let src = dec(a[0])?;
     match op {
-        "syn.parse" | "syn.den" | "syn.rej" | "syn4.parse" => Some(parse_out(&src).0),
-        "syn.print" | "syn.printn" => {
+        "c05.parse" | "c05.den" | "c05.rej" | "c04.parse" => Some(parse_out(&src).0),
+        "c06.print" | "c06.printn" => {
             let (out, e) = parse_out(&src);
             let Some(e) = e else {
                 return Some(if out.starts_with("panic:") { format!("parse-{out}") } else { format!("parse-error {}", &out[4..]) });
             };
-            if op == "syn.print" {
+            if op == "c06.print" {
                 Some(print_out(&e))
             } else {
                 match catch(|| e.normalize()) {
@@ -207,24 +207,31 @@ pub fn out_of_range(rng: &mut Rng) -> String {
     }
 }
 
-pub fn gen(tier: &str, rng: &mut Rng, emit: &mut dyn FnMut(String)) {
+pub fn gen(suite: &str, tier: &str, rng: &mut Rng, emit0: &mut dyn FnMut(String)) {
+    // one generator, two views: suite `c05` keeps the parse lines, suite `c06` the print lines
+    let keep = if suite == "c05" { "c05." } else { "c06." };
+    let mut emit = |op: String| {
+        if op.starts_with(keep) {
+            emit0(op)
+        }
+    };
     let thorough = tier == "thorough";
     let samples = gen_expr::sample_lines();
     // every sample line and every hand-written variant: parse, print, normalized print
     for s in samples.iter().map(|s| s.as_str()).chain(VARIANTS.iter().copied()) {
         let e = enc(s);
-        emit(format!("syn.parse {e}"));
-        emit(format!("syn.print {e}"));
-        emit(format!("syn.printn {e}"));
+        emit(format!("c05.parse {e}"));
+        emit(format!("c06.print {e}"));
+        emit(format!("c06.printn {e}"));
     }
     // pairs of variants under every separator spelling
     for (k, sep) in SEPS.iter().enumerate() {
         for i in 0..VARIANTS.len() {
             let j = (i * 7 + k * 13 + 5) % VARIANTS.len();
             let s = format!("{}{}{}", VARIANTS[i], sep, VARIANTS[j]);
-            emit(format!("syn.parse {}", enc(&s)));
+            emit(format!("c05.parse {}", enc(&s)));
             if k < 3 {
-                emit(format!("syn.print {}", enc(&s)));
+                emit(format!("c06.print {}", enc(&s)));
             }
         }
     }
@@ -233,32 +240,32 @@ pub fn gen(tier: &str, rng: &mut Rng, emit: &mut dyn FnMut(String)) {
         let s = base_sentence(rng, &samples);
         let e = enc(&s);
         match i % 8 {
-            0 | 1 => emit(format!("syn.print {e}")),
-            2 => emit(format!("syn.printn {e}")),
-            3 => emit(format!("syn.parse {e}")),
+            0 | 1 => emit(format!("c06.print {e}")),
+            2 => emit(format!("c06.printn {e}")),
+            3 => emit(format!("c05.parse {e}")),
             4 | 5 => {
                 let mut c = corrupt(rng, &s);
                 if rng.chance(1, 4) {
                     c = corrupt(rng, &c);
                 }
-                emit(format!("syn.parse {}", enc(&c)));
+                emit(format!("c05.parse {}", enc(&c)));
             }
             6 => {
                 if rng.chance(1, 3) {
-                    emit(format!("syn.parse {}", enc(&unicode_noise(rng))));
+                    emit(format!("c05.parse {}", enc(&unicode_noise(rng))));
                 } else {
                     // a corrupted sentence that still parses is printed too
                     let c = corrupt(rng, &s);
-                    emit(format!("syn.print {}", enc(&c)));
+                    emit(format!("c06.print {}", enc(&c)));
                 }
             }
             _ => {
                 let bad = out_of_range(rng);
                 // alone, and spliced as a further rule after a valid sentence
                 if rng.chance(1, 2) {
-                    emit(format!("syn.rej {}", enc(&bad)));
+                    emit(format!("c05.rej {}", enc(&bad)));
                 } else if !bad.is_empty() {
-                    emit(format!("syn.rej {}", enc(&format!("{}; {}", rng.pick(&VARIANTS), bad))));
+                    emit(format!("c05.rej {}", enc(&format!("{}; {}", rng.pick(&VARIANTS), bad))));
                 }
             }
         }
@@ -280,17 +287,17 @@ pub fn gen4(tier: &str, rng: &mut Rng, emit: &mut dyn FnMut(String)) {
         "Mo[1,1,1,1,1,1,1,1]", "\"\"", "\"\"\"", "\"a\":\"b\"", "\"a\": \"a\"", "\"\u{0}\"", ",", ";", "||", " ", "  ", ";;", ", ,", "24/7 24/7", "24/724/7",
     ];
     for s in fixed {
-        emit(format!("syn4.parse {}", enc(s)));
+        emit(format!("c04.parse {}", enc(s)));
     }
     // long inputs (iteration, not recursion, in the engine; the builders are loops)
     for n in [50usize, 500, 5000] {
-        emit(format!("syn4.parse {}", enc(&vec!["Mo"; n].join(","))));
-        emit(format!("syn4.parse {}", enc(&vec!["10:00-12:00"; n].join(","))));
-        emit(format!("syn4.parse {}", enc(&vec!["Mo 10:00-12:00"; n].join("; "))));
-        emit(format!("syn4.parse {}", enc(&format!("Mo[{}]", vec!["1"; n].join(",")))));
-        emit(format!("syn4.parse {}", enc(&format!("\"{}\"", "x".repeat(n)))));
-        emit(format!("syn4.parse {}", enc(&format!("PH +{} days", "9".repeat(n.min(400))))));
-        emit(format!("syn4.parse {}", enc(&format!("PH +{}1 days", "0".repeat(n.min(400))))));
+        emit(format!("c04.parse {}", enc(&vec!["Mo"; n].join(","))));
+        emit(format!("c04.parse {}", enc(&vec!["10:00-12:00"; n].join(","))));
+        emit(format!("c04.parse {}", enc(&vec!["Mo 10:00-12:00"; n].join("; "))));
+        emit(format!("c04.parse {}", enc(&format!("Mo[{}]", vec!["1"; n].join(",")))));
+        emit(format!("c04.parse {}", enc(&format!("\"{}\"", "x".repeat(n)))));
+        emit(format!("c04.parse {}", enc(&format!("PH +{} days", "9".repeat(n.min(400))))));
+        emit(format!("c04.parse {}", enc(&format!("PH +{}1 days", "0".repeat(n.min(400))))));
     }
     let n = if thorough { 2_000_000 } else { 40_000 };
     for i in 0..n {
@@ -319,6 +326,6 @@ pub fn gen4(tier: &str, rng: &mut Rng, emit: &mut dyn FnMut(String)) {
                 c
             }
         };
-        emit(format!("syn4.parse {}", enc(&out)));
+        emit(format!("c04.parse {}", enc(&out)));
     }
 }
